@@ -9,6 +9,7 @@ import (
 
 	"github.com/ThreeDotsLabs/watermill"
 	"github.com/ThreeDotsLabs/watermill/message"
+	"github.com/ThreeDotsLabs/watermill/verifhook"
 )
 
 // Config holds the GoChannel Pub/Sub's configuration options.
@@ -84,6 +85,7 @@ func (g *GoChannel) Publish(topic string, messages ...*message.Message) error {
 	if g.isClosed() {
 		return errors.New("Pub/Sub closed")
 	}
+	verifhook.At("gochannel.publish.after_closed_check", topic, "")
 
 	messagesToPublish := make(message.Messages, len(messages))
 	for i, msg := range messages {
@@ -96,6 +98,7 @@ func (g *GoChannel) Publish(topic string, messages ...*message.Message) error {
 	subLock, _ := g.subscribersByTopicLock.LoadOrStore(topic, &sync.Mutex{})
 	subLock.(*sync.Mutex).Lock()
 	defer subLock.(*sync.Mutex).Unlock()
+	verifhook.At("gochannel.publish.locked", topic, "")
 
 	if g.config.Persistent {
 		g.persistedMessagesLock.Lock()
@@ -105,6 +108,7 @@ func (g *GoChannel) Publish(topic string, messages ...*message.Message) error {
 		g.persistedMessages[topic] = append(g.persistedMessages[topic], messagesToPublish...)
 		g.persistedMessagesLock.Unlock()
 	}
+	verifhook.At("gochannel.publish.persisted", topic, "")
 
 	for i := range messagesToPublish {
 		msg := messagesToPublish[i]
@@ -115,6 +119,7 @@ func (g *GoChannel) Publish(topic string, messages ...*message.Message) error {
 		}
 
 		if g.config.BlockPublishUntilSubscriberAck {
+			verifhook.At("gochannel.publish.wait_ack", topic, msg.UUID)
 			g.waitForAckFromSubscribers(msg, ackedBySubscribers)
 		}
 	}
@@ -180,11 +185,13 @@ func (g *GoChannel) Subscribe(ctx context.Context, topic string) (<-chan *messag
 
 	g.subscribersWg.Add(1)
 	g.closedLock.Unlock()
+	verifhook.At("gochannel.subscribe.after_closed_check", topic, "")
 
 	g.subscribersLock.Lock()
 
 	subLock, _ := g.subscribersByTopicLock.LoadOrStore(topic, &sync.Mutex{})
 	subLock.(*sync.Mutex).Lock()
+	verifhook.At("gochannel.subscribe.locked", topic, "")
 
 	s := &subscriber{
 		ctx:           ctx,
@@ -201,8 +208,10 @@ func (g *GoChannel) Subscribe(ctx context.Context, topic string) (<-chan *messag
 		case <-g.closing:
 			// unblock
 		}
+		verifhook.At("gochannel.sub.teardown", topic, s.uuid)
 
 		s.Close()
+		verifhook.At("gochannel.unsubscribe.before_remove", topic, s.uuid)
 
 		g.subscribersLock.Lock()
 		defer g.subscribersLock.Unlock()
@@ -227,6 +236,7 @@ func (g *GoChannel) Subscribe(ctx context.Context, topic string) (<-chan *messag
 	go func(s *subscriber) {
 		defer g.subscribersLock.Unlock()
 		defer subLock.(*sync.Mutex).Unlock()
+		verifhook.At("gochannel.subscribe.replay", topic, s.uuid)
 
 		g.persistedMessagesLock.RLock()
 		messages, ok := g.persistedMessages[topic]
@@ -241,6 +251,7 @@ func (g *GoChannel) Subscribe(ctx context.Context, topic string) (<-chan *messag
 			}
 		}
 
+		verifhook.At("gochannel.subscribe.before_add", topic, s.uuid)
 		g.addSubscriber(topic, s)
 	}(s)
 
@@ -299,9 +310,11 @@ func (g *GoChannel) Close() error {
 
 	g.closed = true
 	close(g.closing)
+	verifhook.At("gochannel.close.signalled", "", "")
 
 	g.logger.Debug("Closing Pub/Sub, waiting for subscribers", nil)
 	g.subscribersWg.Wait()
+	verifhook.At("gochannel.close.waited", "", "")
 
 	g.logger.Info("Pub/Sub closed", nil)
 	g.persistedMessages = nil
@@ -327,6 +340,7 @@ func (s *subscriber) Close() {
 		return
 	}
 	close(s.closing)
+	verifhook.At("gochannel.sub.close.before_lock", "", s.uuid)
 
 	s.logger.Debug("Closing subscriber, waiting for sending lock", nil)
 
@@ -343,6 +357,7 @@ func (s *subscriber) Close() {
 func (s *subscriber) sendMessageToSubscriber(msg *message.Message, logFields watermill.LogFields) {
 	s.sending.Lock()
 	defer s.sending.Unlock()
+	verifhook.At("gochannel.send.locked", msg.UUID, s.uuid)
 
 	ctx, cancelCtx := context.WithCancel(s.ctx)
 	defer cancelCtx()
@@ -361,6 +376,7 @@ SendToSubscriber:
 			return
 		}
 
+		verifhook.At("gochannel.send.before_chan", msg.UUID, s.uuid)
 		select {
 		case s.outputChannel <- msgToSend:
 			s.logger.Trace("Sent message to subscriber", logFields)
@@ -368,6 +384,7 @@ SendToSubscriber:
 			s.logger.Trace("Closing, message discarded", logFields)
 			return
 		}
+		verifhook.At("gochannel.send.wait_settle", msg.UUID, s.uuid)
 
 		select {
 		case <-msgToSend.Acked():
